@@ -20,7 +20,7 @@ theorem typesIn_to_q (c : MiniCfg) (P) (r : BRule) (h : SegOK P (TypesIn c) r) :
 
 theorem qTypes_wrap (c : MiniCfg) : QuoteWrap (QTypesIn c) := by
   refine ⟨fun _ _ _ _ h => h, ?_⟩
-  intro s s3 s4 line openT closeT segs _ _ _ _ ho3 _ _ hc3 hS t ht
+  intro s s3 s4 line openT closeT segs _ _ _ _ ho3 _ _ hc3 _ hS t ht
   simp only [List.mem_append, List.mem_singleton, List.mem_flatten] at ht
   rcases ht with (rfl | ⟨g, hg, htg⟩) | rfl
   · simp [qAllowed, ho3]
